@@ -454,6 +454,12 @@ func (self *Interpreter) infixHelper(lhs ast.AnalyzedExpression, rhs ast.Analyze
 		default:
 			panic("A new operator kind was introduced without updating this code")
 		}
+	case ast.NeverTypeKind:
+		// The left operand never yields a value (`throw(..) + 1`): evaluating it is all that happens here.
+		_, i := self.expression(lhs)
+		if i != nil {
+			return nil, nil, i
+		}
 	}
 	panic("Unreachable: a new type which is allowed in infix-expressions was added without updating this code")
 }
